@@ -100,16 +100,18 @@ class BaseFunctorWorker(BaseProcess, Generic[T, R]):
                 i, data_list = q_item
 
                 res = (i, [self(x) for x in data_list])
+
+                self.max_chunks_per_worker -= 1
+                if self.max_chunks_per_worker <= 0 and self.replace_queue is not None:
+                    # ask for a replacement before the last result is sent, so the request is always seen
+                    # before the pool can finish the imap call (and stop replacing workers)
+                    self.replace_queue.put(self.wid)
+
                 try:
                     with self.results_queue_lock:
                         self.results_queue.put(res, block=False)
                 except queue.Full:
                     self.results_queue.put(res)
-
-                self.max_chunks_per_worker -= 1
-            else:
-                if self.replace_queue is not None:
-                    self.replace_queue.put(self.wid)
 
         finally:
             self.end()
